@@ -205,7 +205,7 @@ fn start_watchdog(limit_s: u64) {
         // turns for nobody.
         let ev = rec::GLOBAL_EVENTS.load(std::sync::atomic::Ordering::Relaxed);
         let hp = deltio::verif::activity();
-        if ev != win.1 {
+        if ev != win.1 || LIVELOCK_OFF.load(std::sync::atomic::Ordering::SeqCst) {
             win = (std::time::Instant::now(), ev, hp);
         } else if hp.saturating_sub(win.2) >= 5_000_000 && win.0.elapsed().as_secs() >= 10 {
             eprintln!(
@@ -227,6 +227,10 @@ fn start_watchdog(limit_s: u64) {
 }
 
 static WATCHDOG_T0: std::sync::OnceLock<std::time::Instant> = std::sync::OnceLock::new();
+
+/// Set by scenarios in which the server legitimately works without client-visible events (a push
+/// loop ticking every millisecond over hundreds of subscriptions) and which judge progress themselves.
+pub static LIVELOCK_OFF: std::sync::atomic::AtomicBool = std::sync::atomic::AtomicBool::new(false);
 
 fn run_episode(sc: &scen::Scenario, p: &EpParams, shard: &mut ShardReport) -> (String, bool, usize) {
     if let Some(t0) = WATCHDOG_T0.get() {
